@@ -328,8 +328,7 @@ def two_theta(
     b2 = scattered_beam / L2(scattered_beam=scattered_beam)
 
     y = sc.norm(b1 - b2)
-    b2 += b1
-    x = sc.norm(b2)
+    x = sc.norm(b1 + b2)
     res = sc.atan2(y=y, x=x, out=x)
     res *= 2
     return res
